@@ -84,6 +84,7 @@ type gate struct {
 	after       map[int64]int
 	ticks       map[int64]int
 	ticksBefore int
+	mainStarted bool // h.Tick(999) seen before the call returned
 	open        chan struct{}
 	reached     chan struct{}
 	returned    atomic.Bool
@@ -139,10 +140,13 @@ func (g *gate) step(root bool) {
 	g.mu.Unlock()
 }
 
-func (g *gate) tick(int) {
+func (g *gate) tick(v int) {
 	if !g.returned.Load() {
 		g.mu.Lock()
 		g.ticksBefore++
+		if v == 999 {
+			g.mainStarted = true
+		}
 		g.mu.Unlock()
 		return
 	}
@@ -281,6 +285,7 @@ func runJob(j job) (res result) {
 	res.OpsBefore = g.n
 	res.AtRoot = g.atRoot
 	res.TicksBefore = g.ticksBefore
+	res.MainStarted = g.mainStarted
 	g.mu.Unlock()
 	ev(event{"e": "Returned", "err": errText, "latency_ms": r.at.Sub(cancelAt).Milliseconds(), "finished": finished})
 	follow := func() {
@@ -598,7 +603,7 @@ func trigger(r result) string {
 	switch {
 	case r.Job.K == 0:
 		return "context already cancelled when the call starts"
-	case p.Full && (r.AtRoot || r.TicksBefore < p.InitTicks):
+	case p.Full && (r.AtRoot || (p.InitTicks > 0 && !r.MainStarted)):
 		return "cancelled during package initialisation, before main starts"
 	case r.Job.Follow == "before" && !p.Full:
 		return "root-level statements cancelled, next Eval issued while an operation of the cancelled one is still in flight"
